@@ -113,6 +113,7 @@ def run(repo, rep, tier):
         raise AnalysisError('expected 5 guarded conversions in _utils, '
                             'found %d' % r2.sites)
     _notation_rule(repo, rep)
+    factories_agree(repo, rep)
     # ---- R3 ---------------------------------------------------------------
     mod = repo.module(VM)
     for f in mod.all_funcs():
@@ -814,3 +815,47 @@ def _notation_rule(repo, rep):
                         'DSP0004 value is reported as an invalid integer'
                         % (pname, base, ','.join(lost),
                            s[:i] + lost[0] + s[i + 1:]))
+
+
+def factories_agree(repo, rep):
+    """C20.R9: for_property(), for_method() and for_parameter() fetch the
+    class in the same way.  The value-mapped element may be inherited, so
+    the class must be requested with LocalOnly=False and
+    IncludeQualifiers=True in all three; a factory whose request differs
+    from its siblings' (e.g. lacks LocalOnly=False, so the DSP0200 default
+    LocalOnly=true applies) fails with KeyError for inherited elements."""
+    r9 = rep.rule('C20.R9', 'the three ValueMapping factories request the '
+                  'class with the same arguments')
+    vm = repo.cls(VM, 'ValueMapping')
+    calls = {}
+    for fn in ('for_property', 'for_method', 'for_parameter'):
+        f = vm.methods.get(fn)
+        if f is None:
+            raise AnalysisError('ValueMapping.%s vanished' % fn)
+        r9.functions.add(f.fq)
+        cs = [c for c in walk_no_nested(f.node) if isinstance(c, ast.Call)
+              and (dotted(c.func) or '').split('.')[-1] in ('get_class',
+                                                            'GetClass')]
+        if len(cs) != 1:
+            raise AnalysisError('%s: %d class requests' % (fn, len(cs)))
+        calls[fn] = cs[0]
+    sig = {fn: tuple(sorted((k.arg or '**', norm(k.value))
+                            for k in c.keywords)) + (len(c.args),)
+           for fn, c in calls.items()}
+    import collections
+    major = collections.Counter(sig.values()).most_common(1)[0][0]
+    for fn, c in calls.items():
+        r9.sites += 1
+        kws = dict((k.arg, norm(k.value)) for k in c.keywords if k.arg)
+        ok = sig[fn] == major and kws.get('LocalOnly') == 'False' and \
+            kws.get('IncludeQualifiers') == 'True'
+        r9.ob(ok, fn, {'request': norm(c, 120)})
+        if not ok:
+            rep.finding(r9, 'ValueMapping.' + fn, norm(c, 80),
+                        'sibling-drift', VM, c.lineno,
+                        '%s requests the class with %s while its siblings '
+                        'use %s: without LocalOnly=False only locally '
+                        'defined elements are returned, so a value-mapped '
+                        'element the class inherits raises KeyError '
+                        'instead of being mapped'
+                        % (fn, dict(kws), dict(x for x in major[:-1])))
